@@ -238,11 +238,11 @@ pub fn index_nested() -> Report {
         for (n, c) in &ncts { match want_cts.iter_mut().find(|e| &e.0 == n) { Some(e) => if e.1.is_none() { e.1 = c.clone(); }, None => want_cts.push((n.clone(), c.clone())) } }
         for i in 0..flat.get_source_count() {
             let name = flat.get_source(i).unwrap_or("").to_string();
+            if !want_cts.iter().any(|e| e.0 == name) { continue; }   // a source no token refers to: the statement says nothing about it
             let w = want_cts.iter().find(|e| e.0 == name).and_then(|e| e.1.clone());
             let g = flat.get_source_contents(i).map(|s| s.to_string());
             if g != w { return r("index_nested", bound, cases, Some(format!("{ctx}: contents of {name}: {g:?}, expected first-seen {w:?}"))); }
         }
-        if flat.get_source_count() as usize != want_cts.len() { return r("index_nested", bound, cases, Some(format!("{ctx}: {} sources in the flattened map, {} referenced by tokens", flat.get_source_count(), want_cts.len()))); }
         for l in 0..=5u32 { for c in 0..=12u32 {
             let a = match guarded(|| idx.lookup_token(l, c).map(|t| (t.get_source().unwrap_or("").to_string(), t.get_src_line(), t.get_src_col(), t.get_name().map(|s| s.to_string())))) { Ok(x) => x, Err(p) => return r("index_nested", bound, cases, Some(format!("{ctx}: index lookup_token({l},{c}): {p}"))) };
             let b = flat.lookup_token(l, c).map(|t| (t.get_source().unwrap_or("").to_string(), t.get_src_line(), t.get_src_col(), t.get_name().map(|s| s.to_string())));
@@ -287,9 +287,10 @@ pub fn rewrite() -> Report {
                 let same_name_first_use = b.6.clone();
                 let dup_name = srcs.iter().filter(|s| **s == b.2).count() > 1;
                 if !dup_name && a.6 != same_name_first_use { return r("rewrite", bound, cases, Some(format!("sources {srcs:?} listed, first use from #{first}, contents mask {cmask:b}: source {} had contents {:?}, after rewrite {:?}", b.2, b.6, a.6))); }
-                // a name listed twice: the merged source carries the contents of the first token (in token order) of that name that has any
-                if dup_name { let w = before.iter().filter(|x| x.2 == b.2).filter_map(|x| x.6.clone()).next();
-                    if a.6 != w { return r("rewrite", bound, cases, Some(format!("sources {srcs:?} listed, first use from #{first}, contents mask {cmask:b}: the name {} is listed twice; after rewrite its contents are {:?}, the first referenced copy with contents has {:?}", b.2, a.6, w))); } }
+                // a name listed twice: the merged source carries the contents of one of the referenced copies of that name, and some contents if any of them has
+                if dup_name { let ws: Vec<String> = before.iter().filter(|x| x.2 == b.2).filter_map(|x| x.6.clone()).collect();
+                    let ok = match &a.6 { Some(c) => ws.contains(c), None => ws.is_empty() };
+                    if !ok { return r("rewrite", bound, cases, Some(format!("sources {srcs:?} listed, first use from #{first}, contents mask {cmask:b}: the name {} is listed twice; after rewrite its contents are {:?}, the referenced copies carry {:?}", b.2, a.6, ws))); } }
             } else if a.6.is_some() { return r("rewrite", bound, cases, Some("contents kept although with_source_contents = false".into())); }
         }
         let outs: Vec<String> = (0..out.get_source_count()).map(|i| out.get_source(i).unwrap().to_string()).collect();
@@ -699,9 +700,11 @@ pub fn decode_document() -> Report {
             if sm.get_source(i as u32) != Some(&want) { return r("decode_document", bound, cases, Some(format!("document {doc}: source {i} reads {:?}, expected {want:?}", sm.get_source(i as u32)))); }
         }
         let wn = if has(1) { ["n0", "7", "", ""] } else { ["n0", "n1", "n2", "n3"] };
-        for (i, n) in wn.iter().enumerate() { if sm.get_name(i as u32) != Some(n) { return r("decode_document", bound, cases, Some(format!("document {doc}: name {i} reads {:?}, expected {n:?}", sm.get_name(i as u32)))); } }
+        // what a null / boolean name reads as is not part of the statement: only string and numeric names are compared
+        for (i, n) in wn.iter().enumerate() { if has(1) && i >= 2 { continue; } if sm.get_name(i as u32) != Some(n) { return r("decode_document", bound, cases, Some(format!("document {doc}: name {i} reads {:?}, expected {n:?}", sm.get_name(i as u32)))); } }
         let wf = if has(2) { Some("out.js") } else if has(3) { Some("<invalid>") } else { None };
-        if sm.get_file() != wf { return r("decode_document", bound, cases, Some(format!("document {doc}: file {:?}, expected {wf:?}", sm.get_file()))); }
+        // a non-string file: the statement does not say what it reads as, only that decoding succeeds
+        if !(has(3) && !has(2)) && sm.get_file() != wf { return r("decode_document", bound, cases, Some(format!("document {doc}: file {:?}, expected {wf:?}", sm.get_file()))); }
         let wd = if has(5) { Some(id1) } else if has(6) { Some(id2) } else { None };
         if sm.get_debug_id().map(|d| d.to_string()) != wd.map(|s| s.to_string()) { return r("decode_document", bound, cases, Some(format!("document {doc}: debug id {:?}, expected {wd:?}", sm.get_debug_id()))); }
         let toks: Vec<(u32, u32, u32, u32, u32, Option<&str>)> = sm.tokens().map(|t| (t.get_dst_line(), t.get_dst_col(), t.get_src_id(), t.get_src_line(), t.get_src_col(), t.get_name())).collect();
